@@ -6,6 +6,8 @@ import (
 	"fmt"
 
 	"github.com/Oneledger/protocol/action"
+	"github.com/Oneledger/protocol/data/keys"
+	"github.com/btcsuite/btcd/btcec"
 
 	"olverif/harness/rng"
 )
@@ -15,7 +17,9 @@ import (
 // 2 = an unknown top-level field added, 3 = trailing whitespace; 4..6 alter the part of the
 // envelope no signature covers, the signature list itself, and are re-serialised canonically:
 // 4 = first signature duplicated, 5 = an empty signature entry appended, 6 = a stranger's valid
-// signature over the same content appended.
+// signature over the same content appended; 7 and 8 spell the first signer's public key differently
+// (7 = the other customary spelling of the same key: tendermint's amino prefix in front of an
+// ED25519 or SECP256K1 key, the uncompressed point for a BTCEC key; 8 = a zero byte appended).
 func Reencode(tx []byte, how int) []byte {
 	if how == 3 {
 		return append(append([]byte{}, tx...), ' ', '\n')
@@ -30,6 +34,26 @@ func Reencode(tx []byte, how int) []byte {
 			st.Signatures = append(st.Signatures, st.Signatures[0])
 		case 5:
 			st.Signatures = append(st.Signatures, action.Signature{})
+		case 7, 8:
+			k := st.Signatures[0].Signer
+			d := append([]byte{}, k.Data...)
+			if how == 8 {
+				d = append(d, 0)
+			} else {
+				switch k.KeyType {
+				case keys.ED25519:
+					d = append([]byte{0x16, 0x24, 0xDE, 0x64, 0x20}, d...)
+				case keys.SECP256K1:
+					d = append([]byte{0xEB, 0x5A, 0xE9, 0x87, 0x21}, d...)
+				default:
+					pk, err := btcec.ParsePubKey(d, btcec.S256())
+					if err != nil {
+						return nil
+					}
+					d = pk.SerializeUncompressed()
+				}
+			}
+			st.Signatures[0].Signer = keys.PublicKey{KeyType: k.KeyType, Data: d}
 		default:
 			x := NewAcct(99, "replay-stranger")
 			st.Signatures = append(st.Signatures, action.Signature{Signer: x.Pub, Signed: x.Sign(st.RawTx.RawBytes())})
@@ -58,13 +82,16 @@ func Reencode(tx []byte, how int) []byte {
 // (byte-identical, or the same signed content re-encoded). The property holds iff the
 // resubmission is rejected by CheckTx and A's results and application hash stay equal to B's.
 func RunReplay(seed uint64, histories, blocks, maxTxs int) (*Result, error) {
-	res := NewResult("replay", seed, "case = one generated block history on twin replicas; A's blocks additionally carry resubmissions (byte-identical, or re-encoded: indentation, key order, unknown field, trailing whitespace, and altered unsigned envelope parts: duplicated / empty / stranger's extra signature entry) of transactions that succeeded earlier, each first offered to CheckTx; monitor: CheckTx code != 0 and A's application hash / other results equal B's; non-trivial = at least one resubmission of a successful state-changing tx delivered at a later height; distinct = SHA-256 of the lines")
+	res := NewResult("replay", seed, "case = one generated block history on twin replicas; A's blocks additionally carry resubmissions (byte-identical, or re-encoded: indentation, key order, unknown field, trailing whitespace, and altered unsigned envelope parts: duplicated / empty / stranger's extra signature entry, first signer key re-spelled: amino-prefixed / uncompressed point / trailing zero byte; every second history has SECP256K1 and BTCEC signers besides ED25519) of transactions that succeeded earlier, each first offered to CheckTx; monitor: CheckTx code != 0 and A's application hash / other results equal B's; non-trivial = at least one resubmission of a successful state-changing tx delivered at a later height; distinct = SHA-256 of the lines")
 	root := rng.New(seed*77 + 3)
 	for c := 0; c < histories; c++ {
 		r := root.Fork()
 		hl := &HistoryLog{}
 		p := paramsFor(r, seed*1000+uint64(c))
 		w := NewWorld(p)
+		if c%2 == 1 {
+			mixAccountAlgorithms(w) // SECP256K1 and BTCEC signers too
+		}
 		A, err := NewReplica(w, Identity{Name: "A", Val: w.Vals[0]})
 		if err != nil {
 			return nil, err
@@ -103,7 +130,7 @@ func RunReplay(seed uint64, histories, blocks, maxTxs int) (*Result, error) {
 				if r.Intn(3) == 0 {
 					extra = o.b
 				} else {
-					how = r.Intn(7)
+					how = r.Intn(9)
 					extra = Reencode(o.b, how)
 					if extra == nil {
 						how = 3
